@@ -577,7 +577,9 @@ def run_real(program):
                             box['result'] = ('raised', 'RuntimeError')
                     else:
                         box['result'] = ('returned', None)
-            usim.run(main())
+            from ..kernel import ExecTimer
+            with ExecTimer():
+                usim.run(main())
             holder.setdefault('now', holder['env'].now)
             u = program.get('until')
             # (if the environment never finished, run() ended at quiescence with main still inside env.until())
@@ -588,8 +590,10 @@ def run_real(program):
             env = simpy.Environment()
             events, procs = build(env, flags)
             holder['env'] = env
+            from ..kernel import ExecTimer
             try:
-                value = env.run(until=until_arg(events, procs))
+                with ExecTimer():
+                    value = env.run(until=until_arg(events, procs))
             finally:
                 holder['now'] = env.now
             if isinstance(value, BaseException):
